@@ -222,6 +222,24 @@ impl Peer {
         })
     }
 
+    /// Same, through a backend handle (usable while `recv` borrows the socket).
+    pub async fn attach_backend(
+        backend: Arc<dyn MultiPeerBackend>,
+        peer_ty: &str,
+        identity: Option<&[u8]>,
+    ) -> Result<Peer, String> {
+        let (conn, r, w) = Conn::new();
+        conn.feed(&rc::handshake(peer_ty, identity));
+        let id = sim::complete(attach_future(backend, r, w)).await??;
+        let hs_len = library_handshake_len(&conn.tap())?;
+        Ok(Peer {
+            conn,
+            id,
+            ty: peer_ty.to_string(),
+            hs_len,
+        })
+    }
+
     pub fn send(&self, frames: &[Vec<u8>]) {
         self.conn.feed(&rc::message(frames));
     }
